@@ -95,6 +95,9 @@ def run(ctx):
     _a = _aut()
     rule_action_preconditions(ctx, idx, _G(_a), _a, rid="R06.12")
 
+    # ------------------------------------------------------------------ R06.13 (generic, scoped to this property's anchors)
+    sm.rule_named_plumbing(ctx, mir, "C06", "R06.13", floor=57)
+
     ctx.not_decided += ["equality of event logs under handler sets H and H ∪ O as such (relation between two runs)"]
     return ("Rules on the hand-over between the tag scanner and the lexer: type-driven bookmark completeness, reset of sticky per-tag scratch on "
             "every continuing exit of finish_tag_name (CFG dominance), the stale-hint-flag protocol and once-per-tag tree-builder feedback.")
